@@ -36,6 +36,10 @@ def run(prog, res):
   for q in ('lattice_lib.project_by_dykstra', 'lattice_lib._approximately_project_trapezoid'):
     hashkeys.check_function(prog, res, prog.function(q))
   res.floor('T4', 8)
+  from ..rules import staleloop
+  staleloop.check_shadowed_attributes(
+      prog, res, [f for f in prog.all_functions() if f.parent is None])
+  res.floor('X8', 1)
   serial.check_config_not_mutated(prog, res)
   res.floor('S12', 8)
   n_classes = 0
